@@ -212,6 +212,12 @@ impl World {
     }
 
     pub fn exec(&mut self, cmd: &Value) {
+        self.exec_expect(cmd, None)
+    }
+
+    /// `exp_hook`: the hook the model believes is parked on the gate (from its predicted events);
+    /// a directive is only handed over if the implementation is parked in that same hook.
+    pub fn exec_expect(&mut self, cmd: &Value, exp_hook: Option<&str>) {
         let c = cmd["c"].as_str().unwrap_or("");
         emit(json!({"e": "Cmd", "cmd": cmd}));
         match c {
@@ -274,7 +280,18 @@ impl World {
                 let dir = cmd["dir"].as_str().unwrap_or("none");
                 if let Some(slot) = self.actors.get(&a) {
                     if dir != "none" {
-                        slot.sh.give(Dir::Out(dir.to_string()));
+                        let parked = slot.sh.parked();
+                        let fits = match dir {
+                            "true" | "false" => parked == "Run",
+                            "ok" => matches!(parked, "Start" | "Handler" | "Stop"),
+                            "err" => matches!(parked, "Start" | "Stop" | "Run"),
+                            _ => parked != "",
+                        } && exp_hook.map(|h| h == parked).unwrap_or(true);
+                        if fits {
+                            slot.sh.give(Dir::Out(dir.to_string()));
+                        } else {
+                            self.inappl("burst: directive does not fit the parked hook");
+                        }
                     }
                     self.run_actor(&a);
                 } else {
@@ -284,11 +301,15 @@ impl World {
             "nest" => {
                 let a = cmd["a"].as_str().unwrap().to_string();
                 if let Some(slot) = self.actors.get(&a) {
+                    if !matches!(slot.sh.parked(), "Start" | "Handler" | "Stop") {
+                        self.inappl("nest: no hook parked");
+                    } else {
                     slot.sh.give(Dir::Nest {
                         kind: cmd["kind"].as_str().unwrap().to_string(),
                         h: cmd["h"].as_u64().unwrap(),
                         d: cmd["d"].as_u64().unwrap_or(0),
                     });
+                    }
                     self.run_actor(&a);
                 } else {
                     self.inappl("nest: no actor");
@@ -304,6 +325,13 @@ impl World {
             }
             "clone" | "drop" | "down" | "up" | "alive" | "ident" | "erase" => self.handle_op(c, cmd),
             "quiesce" => {
+                // the model believes nothing can move any more; if the implementation disagrees
+                // (something is still pending or parked) let it run to its own quiescence first
+                let busy = !PENDING.lock().unwrap().is_empty()
+                    || self.actors.values().any(|s| s.jh.is_some() && matches!(s.sh.parked(), "Start" | "Handler" | "Stop"));
+                if busy {
+                    self.settle();
+                }
                 self.quiescent_event();
             }
             _ => self.inappl("unknown command"),
@@ -471,6 +499,13 @@ impl World {
     /// After the scheduled commands: open every gate with its default outcome, poll and run
     /// everything to a fixpoint, let every deadline pass, then report what is still pending.
     pub fn tail(&mut self) {
+        self.settle();
+        emit(json!({"e": "Cmd", "cmd": {"c": "quiesce", "tail": true}}));
+        self.quiescent_event();
+        self.sample_all();
+    }
+
+    fn settle(&mut self) {
         for _round in 0..200 {
             let before = self.progress_marker();
             let names: Vec<String> = self.order.clone();
@@ -499,9 +534,6 @@ impl World {
             }
             break;
         }
-        emit(json!({"e": "Cmd", "cmd": {"c": "quiesce", "tail": true}}));
-        self.quiescent_event();
-        self.sample_all();
     }
 
     fn progress_marker(&self) -> (usize, usize, usize) {
@@ -535,7 +567,19 @@ pub fn run_schedule(run: u64, steps: &[Value], erased: bool, feats: &Value) -> (
             quiesced = true;
         }
         let start = log_len();
-        w.exec(cmd);
+        let exp_hook: Option<&str> = st.get("evs").and_then(|e| e.as_array()).and_then(|evs| {
+            evs.iter().find_map(|e| match e["e"].as_str() {
+                Some("HExit") => match e["hook"].as_str() {
+                    Some("start") => Some("Start"),
+                    Some("handler") => Some("Handler"),
+                    Some("stop") => Some("Stop"),
+                    _ => None,
+                },
+                Some("RunPoll") | Some("RunEnd") | Some("RunDrop") => Some("Run"),
+                _ => None,
+            })
+        });
+        w.exec_expect(cmd, exp_hook);
         let got: Vec<Value> = take_from(start + 1); // skip the Cmd marker
         if let Some(exp) = st.get("evs").and_then(|e| e.as_array()) {
             if drifts.is_empty() && !same_events(exp, &got) {
